@@ -291,3 +291,32 @@ Theorem C17_scaling_invariant :
   (conservative n (mscale d S) <-> conservative n S) /\ (consistent n (mscale d S) <-> consistent n S).
 Proof. exact scaling_invariant. Qed.
 Print Assumptions C17_scaling_invariant.
+
+(** Completeness direction of is_consistent ("consistent exactly when a strictly positive steady flux exists"), CONDITIONALLY: the
+    verdict is True as soon as the LP answers "success, relative residual <= 1e-8" ([nm_lpR] = 0) — that HiGHS does so whenever a
+    strictly positive flux exists is the SOLVER premise: tested per input against the certified truth (oracle clause `consistent`,
+    exhaustive small scope + random + textbook networks), never proved.  None (inconclusive) is answered exactly when the LP gave no
+    usable answer, the right kernel is non-trivial and no basis column is sign definite.  (For conservativity the unconditional
+    converse is refuted: [C17_conservative_complete_refuted].) *)
+Theorem C17_consistent_complete_conditional :
+  forall (kr : nat) (nm : numerics),
+  (nm_lpR nm = 0%nat -> consistent_verdict kr nm = Some true) /\
+  (consistent_verdict kr nm = None <-> (2 <= nm_lpR nm)%nat /\ kr <> 0%nat /\ nm_scanR nm = false).
+Proof. intros kr nm. split; [exact (consistent_verdict_lp_ok kr nm)|exact (consistent_verdict_none kr nm)]. Qed.
+Print Assumptions C17_consistent_complete_conditional.
+
+(** [C17_rank_cert_sound] at exactly the arguments [run] / [run_noscipy] evaluate: for every network, a checked certificate gives the
+    rank of ITS stoichiometric matrix [build_S net iso] (rows = species, columns = reactions) over the rationals and both kernel
+    dimensions (species - rank, reactions - rank). *)
+Theorem C17_rank_of_network : forall (net : list rxn) (iso : list str) (c : rcert),
+  let m := length (species_order net iso) in
+  let n := length (reaction_order net) in
+  rank_checked m n (build_S net iso) c = true ->
+  let F := mathcomp.algebra.rat.rat_fieldType in
+  let M := SK.lib.RankBridge.toM m n (build_S net iso) in
+  @mathcomp.algebra.mxalgebra.mxrank F m n M = rc_r c /\
+  @mathcomp.algebra.mxalgebra.mxrank F m m (@mathcomp.algebra.mxalgebra.kermx F m n M) = (m - rc_r c)%nat /\
+  @mathcomp.algebra.mxalgebra.mxrank F n n
+     (@mathcomp.algebra.mxalgebra.kermx F n m (@mathcomp.algebra.matrix.trmx mathcomp.algebra.rat.rat m n M)) = (n - rc_r c)%nat.
+Proof. intros net iso c m n H. exact (C17_rank_cert_sound m n (build_S net iso) c H). Qed.
+Print Assumptions C17_rank_of_network.
